@@ -225,6 +225,322 @@ def poly_case(rng):
                                      " ".join(" ".join(s_rat(x) for x in p) for p in pts))
 
 
+
+# ------------------------------------------------------------------ end points of every value kind (a-operations)
+# A Surd is s * r^(1/k) (s in {-1,0,1}, r a positive rational, k in {1,2,3,6}); the generator knows its decimal value
+# and how to write it - and x o y where that is again expressible - as a valio token.  NOTHING here is trusted:
+# the model verifies with the exact reference arithmetic that every witness lies in its operand and that every
+# claimed result token denotes x o y.
+import math
+APPROX = {}          # token -> float (only used for the branch tags)
+
+
+def _iroot(n, k):
+    if n < 0:
+        return None
+    r = round(n ** (1.0 / k))
+    for c in (r - 1, r, r + 1):
+        if c >= 0 and c ** k == n:
+            return c
+    return None
+
+
+class Surd(object):
+    def __init__(self, s, r=F(1), k=1):
+        r = F(r)
+        if s == 0 or r == 0:
+            s, r, k = 0, F(1), 1
+        # reduce the root index while the radicand is a perfect d-th power
+        changed = True
+        while changed and k > 1:
+            changed = False
+            for d in (2, 3):
+                if k % d == 0:
+                    a, b = _iroot(r.numerator, d), _iroot(r.denominator, d)
+                    if a is not None and b is not None:
+                        r, k, changed = F(a, b), k // d, True
+        self.s, self.r, self.k = s, r, k
+
+    def rational(self):
+        return self.s * self.r if self.k == 1 else None
+
+    def approx(self):
+        return self.s * float(self.r) ** (1.0 / self.k)
+
+    def token(self, rng=None):
+        q = self.rational()
+        if q is not None:
+            kinds = ["q"]
+            if q.denominator == 1:
+                kinds += ["z", "z", "d"]
+            elif is_dyadic(q):
+                kinds += ["d", "d"]
+            kd = rng.choice(kinds) if rng is not None else kinds[-1]
+            t = "z:%d" % q.numerator if kd == "z" else ("d:%d/%d" % (q.numerator, q.denominator.bit_length() - 1) if kd == "d"
+                                                       else "q:%d/%d" % (q.numerator, q.denominator))
+        else:
+            num, den, k = self.r.numerator, self.r.denominator, self.k
+            if k % 2 == 0:
+                t = "r:%d,%s%d:%d" % (-num, "0," * (k - 1), den, 1 if self.s > 0 else 0)
+            else:
+                t = "r:%d,%s%d:0" % (-num if self.s > 0 else num, "0," * (k - 1), den)
+        APPROX[t] = self.approx()
+        return t
+
+    def mul(self, o):
+        if self.s == 0 or o.s == 0:
+            return Surd(0)
+        k = self.k * o.k // math.gcd(self.k, o.k)
+        return Surd(self.s * o.s, self.r ** (k // self.k) * o.r ** (k // o.k), k)
+
+    def pow(self, n):
+        if n == 0:
+            return Surd(1)
+        return Surd(self.s ** n, self.r ** n, self.k)
+
+
+def surd_q(q):
+    q = F(q)
+    return Surd((q > 0) - (q < 0), abs(q), 1)
+
+
+def _poly_token(coeffs, idx, approx):
+    """token of the idx-th real root of the integer polynomial (low degree first) after clearing denominators"""
+    L = 1
+    for c in coeffs:
+        L = L * F(c).denominator // math.gcd(L, F(c).denominator)
+    t = "r:%s:%d" % (",".join(str(int(F(c) * L)) for c in coeffs), idx)
+    APPROX[t] = approx
+    return t
+
+
+def surd_add_token(a, b, rng):
+    """token of a + b when the generator can write it down, else None"""
+    qa, qb = a.rational(), b.rational()
+    if qa is not None and qb is not None:
+        return surd_q(qa + qb).token(rng)
+    if qa is not None or qb is not None:
+        q, x = (qa, b) if qa is not None else (qb, a)
+        if q == 0:
+            return x.token(rng)
+        if x.k != 2:
+            return None
+        # q + s*sqrt(r): root of x^2 - 2q x + q^2 - r
+        return _poly_token([q * q - x.r, -2 * q, 1], 1 if x.s > 0 else 0, float(q) + x.approx())
+    if a.k == 2 and b.k == 2:
+        # a = s1 sqrt(r1), b = s2 sqrt(r2)
+        ratio = Surd(1, a.r / b.r, 2).rational()
+        if ratio is not None:          # same square class: a = s1*ratio*sqrt(r2)
+            c = a.s * ratio + b.s
+            return Surd((c > 0) - (c < 0), c * c * b.r, 2).token(rng)
+        r1, r2 = a.r, b.r
+        vals = sorted([s1 * math.sqrt(r1) + s2 * math.sqrt(r2) for s1 in (-1, 1) for s2 in (-1, 1)])
+        v = a.approx() + b.approx()
+        idx = min(range(4), key=lambda i: abs(vals[i] - v))
+        return _poly_token([(r1 - r2) ** 2, 0, -2 * (r1 + r2), 0, 1], idx, v)
+    return None
+
+
+SQ2, SQ3, SQ6, CB2 = Surd(1, 2, 2), Surd(1, 3, 2), Surd(1, 6, 2), Surd(1, 2, 3)
+ALG_ENDS = [SQ2, Surd(-1, 2, 2), SQ3, Surd(-1, 3, 2), SQ6, Surd(-1, 6, 2), CB2, Surd(-1, 2, 3),
+            Surd(1, F(1, 2), 2), Surd(-1, F(3, 4), 2)]
+AINF_LO, AINF_HI = "AMINF", "APINF"
+
+
+def a_end(rng):
+    k = rng.random()
+    if k < 0.55:
+        return rng.choice(ALG_ENDS)
+    if k < 0.8:
+        return surd_q(rng.choice(GRID))
+    return surd_q(F(rng.randint(-12, 12), rng.choice([1, 2, 3, 4, 5, 8])))
+
+
+def a_itv(rng, shape=None):
+    """(lo, lo_open, hi, hi_open) with Surd or +-inf ends, or (x,) for a point; shape in neg/pos/mix/any"""
+    shape = shape or rng.choice(["neg", "pos", "mix", "any", "any"])
+    for _ in range(100):
+        if rng.random() < 0.12:
+            x = a_end(rng)
+            if shape == "neg" and x.approx() >= 0 or shape == "pos" and x.approx() <= 0:
+                continue
+            return (x,)
+        a, b = a_end(rng), a_end(rng)
+        if abs(a.approx() - b.approx()) < 1e-9:
+            continue
+        if a.approx() > b.approx():
+            a, b = b, a
+        lo, hi = a, b
+        r = rng.random()
+        if r < 0.08:
+            lo = AINF_LO
+        elif r < 0.16:
+            hi = AINF_HI
+        la = -1e18 if lo == AINF_LO else lo.approx()
+        ha = 1e18 if hi == AINF_HI else hi.approx()
+        if shape == "neg" and ha > 0 or shape == "pos" and la < 0 or shape == "mix" and not (la < 0 < ha):
+            continue
+        return (lo, 1 if lo == AINF_LO else rng.randint(0, 1), hi, 1 if hi == AINF_HI else rng.randint(0, 1))
+    return (surd_q(-1), 0, SQ2, 1)
+
+
+def a_tok(e, rng):
+    return "-inf" if e == AINF_LO else ("+inf" if e == AINF_HI else e.token(rng))
+
+
+def a_str(I, rng):
+    if len(I) == 1:
+        return "P " + a_tok(I[0], rng)
+    return "I %d %s %d %s" % (I[1], a_tok(I[0], rng), I[3], a_tok(I[2], rng))
+
+
+def a_witnesses(I, rng):
+    """Surd members of I: closed end points, 0, rational points strictly inside"""
+    if len(I) == 1:
+        return [I[0]]
+    lo, lo_o, hi, hi_o = I
+    la = None if lo == AINF_LO else lo.approx()
+    ha = None if hi == AINF_HI else hi.approx()
+    res = []
+    if la is not None and not lo_o:
+        res.append(lo)
+    if ha is not None and not hi_o:
+        res.append(hi)
+    l = la if la is not None else (ha - 7.0)
+    h = ha if ha is not None else (la + 7.0)
+    if l < -1e-6 and h > 1e-6:
+        res.append(Surd(0))
+    for t in (rng.uniform(0.05, 0.45), rng.uniform(0.55, 0.95), 0.5):
+        v = l + (h - l) * t
+        for den in (4, 64, 4096):
+            q = F(round(v * den), den)
+            if l + 1e-7 < float(q) < h - 1e-7:
+                if all(abs(float(q) - w.approx()) > 1e-12 for w in res):
+                    res.append(surd_q(q))
+                break
+    return res
+
+
+def a_bin_case(op, rng):
+    I1, I2 = a_itv(rng), a_itv(rng)
+    if rng.random() < 0.1:
+        I2 = I1
+    U = a_itv(rng)
+    w1, w2 = a_witnesses(I1, rng), a_witnesses(I2, rng)
+    prs = [(x, y) for x in w1 for y in w2]
+    rng.shuffle(prs)
+    prs = sorted(prs[:10], key=lambda p: 0)  # keep a random subset of at most 10 pairs
+    ws = []
+    for x, y in prs:
+        z = x.mul(y).token(rng) if op == "amul" else surd_add_token(x, y, rng)
+        if z is not None:
+            ws += [x.token(rng), y.token(rng), z]
+    return "%s %s %s U %s W %s" % (op, a_str(I1, rng), a_str(I2, rng), a_str(U, rng), " ".join(ws))
+
+
+def a_pow_case(rng, n=None, shape=None):
+    n = rng.choice([0, 1, 2, 2, 3, 4, 4, 5]) if n is None else n
+    I = a_itv(rng, shape)
+    U = a_itv(rng)
+    ws = []
+    for x in a_witnesses(I, rng):
+        ws += [x.token(rng), x.pow(n).token(rng)]
+    return "apow %d %s U %s W %s" % (n, a_str(I, rng), a_str(U, rng), " ".join(ws))
+
+
+class Qm(object):
+    """A + B*sqrt(m) for a fixed square-free integer m"""
+    def __init__(self, a, b, m):
+        self.a, self.b, self.m = F(a), F(b), m
+
+    def __add__(self, o):
+        return Qm(self.a + o.a, self.b + o.b, self.m)
+
+    def __mul__(self, o):
+        return Qm(self.a * o.a + self.b * o.b * self.m, self.a * o.b + self.b * o.a, self.m)
+
+    def token(self, rng):
+        if self.b == 0:
+            return surd_q(self.a).token(rng)
+        sb = 1 if self.b > 0 else -1
+        if self.a == 0:
+            return Surd(sb, self.b * self.b * self.m, 2).token(rng)
+        return _poly_token([self.a * self.a - self.b * self.b * self.m, -2 * self.a, 1], 1 if sb > 0 else 0,
+                           float(self.a) + float(self.b) * math.sqrt(self.m))
+
+
+def eval_coef_qm(c, pt, m):
+    if c[0] == "N":
+        return Qm(c[1], 0, m)
+    acc = Qm(0, 0, m)
+    xp = Qm(1, 0, m)
+    for ci in c[2]:
+        acc = acc + eval_coef_qm(ci, pt, m) * xp
+        xp = xp * pt[c[1]]
+    return acc
+
+
+def a_poly_case(rng):
+    """small polynomials (exact evaluation at algebraic points is expensive for the reference): one variable of
+    degree <= 4 or two variables of degree <= 2 each; even powers emphasised; at most one algebraic coordinate
+    per witness point"""
+    nv = 1 if rng.random() < 0.7 else 2
+    maxdeg = 4 if nv == 1 else 2
+
+    def small(x):
+        deg = rng.choice([2, maxdeg])
+        cs = []
+        for i in range(deg + 1):
+            if x > 0 and i % 2 == 0 and rng.random() < 0.5:
+                cs.append(small(x - 1))
+            elif i % 2 == 0 or rng.random() < 0.3:
+                cs.append(("N", rng.choice([1, -1, 2, 3, -3])))
+            else:
+                cs.append(("N", 0))
+        if cs[-1] == ("N", 0):
+            cs[-1] = ("N", 1)
+        return ("R", x, cs)
+    c = small(nv - 1)
+    m = rng.choice([2, 3, 6])
+    Is = [a_itv(rng, rng.choice(["neg", "neg", "pos", "mix", "any"])) for _ in range(nv)]
+    ws = []
+    for _ in range(5):
+        pt, toks, ok, nalg = [], [], True, 0
+        for I in Is:
+            cands = a_witnesses(I, rng)
+            usable = [w for w in cands if w.rational() is not None or
+                      (nalg == 0 and w.k == 2 and Surd(1, w.r / m, 2).rational() is not None)]
+            if not usable:
+                ok = False
+                break
+            algs = [w for w in usable if w.rational() is None]
+            w = rng.choice(algs) if algs and rng.random() < 0.6 else rng.choice(usable)
+            if w.rational() is not None:
+                pt.append(Qm(w.rational(), 0, m))
+            else:
+                nalg += 1
+                pt.append(Qm(0, w.s * Surd(1, w.r / m, 2).rational(), m))
+            toks.append(w.token(rng))
+        if ok:
+            ws += toks + [eval_coef_qm(c, pt, m).token(rng)]
+    return "apoly %d %s A %s W %s" % (nv, s_coef(c), " ".join(a_str(I, rng) for I in Is), " ".join(ws))
+
+
+def alg_cases(rng, n):
+    cases = []
+    for _ in range(n):
+        k = rng.random()
+        if k < 0.3:
+            cases.append(a_bin_case("amul", rng))
+        elif k < 0.5:
+            cases.append(a_bin_case("aadd", rng))
+        elif k < 0.85:
+            cases.append(a_pow_case(rng))
+        else:
+            cases.append(a_poly_case(rng))
+    return cases
+
+
 # ------------------------------------------------------------------ generate
 def exhaustive_cases(rng):
     cases = []
@@ -271,6 +587,13 @@ def generate(rng, tier, corpus_only=False):
             else:
                 cases.append(un_case(fam + "pow", I1, U, rng, rng.randint(0, 5)))
         n_rand = 8000
+    cases += alg_cases(rng, 1500 if tier == "quick" else 12000)
+    if tier == "thorough":
+        # every open/closed pattern x n in 0..5 on entirely negative / positive / straddling algebraic intervals
+        for shape in ("neg", "pos", "mix"):
+            for n in range(6):
+                for _ in range(40):
+                    cases.append(a_pow_case(rng, n, shape))
     for _ in range(n_rand):
         k = rng.random()
         fam = rng.choice("rdv")
@@ -343,10 +666,44 @@ def _zero_class(I):
     return inf + ("pos" if (a != MINF and a > 0) else "neg")
 
 
+def _a_cls(I):
+    def ap(tok):
+        if tok == "-inf":
+            return -1e18
+        if tok == "+inf":
+            return 1e18
+        return APPROX.get(tok)
+    alg = "alg" if any(x.startswith("r:") for x in I[1:]) else "rat"
+    if I[0] == "P":
+        v = ap(I[1])
+        return alg + ("pt?" if v is None else ("pt0" if v == 0 else ("pt+" if v > 0 else "pt-")))
+    a, b = ap(I[2]), ap(I[4])
+    if a is None or b is None:
+        return alg + "?"
+    return alg + ("neg" if b <= 0 else ("pos" if a >= 0 else "mix")) + I[1] + I[3]
+
+
+def _a_tag(t):
+    try:
+        if t[0] in ("aadd", "amul"):
+            I1, i = _parse_itv(t, 1)
+            I2, i = _parse_itv(t, i)
+            return "%s:%s*%s" % (t[0], _a_cls(I1), _a_cls(I2))
+        if t[0] == "apow":
+            n = int(t[1])
+            I, i = _parse_itv(t, 2)
+            return "apow:%s:%s" % ("n0" if n == 0 else ("odd" if n % 2 else "even"), _a_cls(I))
+    except Exception:
+        pass
+    return t[0]
+
+
 def tag(case):
     """branch tag: operation + the case split of the model the operands reach"""
     t = case.split()
     op = t[0]
+    if op in ("aadd", "amul", "apow", "apoly"):
+        return _a_tag(t)
     try:
         if op[1:] in ("add", "sub", "mul"):
             I1, i = _parse_itv(t, 1)
@@ -380,6 +737,8 @@ def nontrivial(case):
 def explain(case, c_out, m_out):
     if c_out is None:
         return "the C driver crashed on this case (sanitizer report / signal in stderr_tail)"
+    if case.split()[0] in ("aadd", "amul", "apow", "apoly"):
+        return "end points of every value kind: the exact reference arithmetic (RefAlg) decided on the library's output: " + (m_out or "")
     msg = []
     if "lost=" in c_out and not c_out.rstrip().endswith("lost=0"):
         msg.append("SEMANTIC: the library's own `contains` rejects %s witness value(s) x o y (x, y taken from the "
@@ -406,6 +765,7 @@ def extra_coverage(cases, couts, mouts):
 RULE = ("corpus of defect witnesses first; quick: seeded sample of the exhaustive end-point grid plus random rational/dyadic/"
         "infinite end points; thorough: the whole grid (exhaustive=true) plus 30000 random cases; distinct = distinct case "
         "line; non-trivial = some operand is a proper interval")
-ASSUMPTIONS = ["interval end points are integers, rationals, dyadic rationals or +-infinity (algebraic end points are not modelled)",
+ASSUMPTIONS = ["theorems and the faithful model: interval end points are integers, rationals, dyadic rationals or +-infinity; ALGEBRAIC end points "
+               "(aadd/amul/apow/apoly) are covered by the semantic monitor and the exact reference arithmetic RefAlg.v only (no theorem)",
                "inputs satisfy the constructors' assertions (a < b, or a point with closed ends)"]
 TRUSTED = ["witness points are chosen by gen/C15.py (validated by the model's proved `contains`) and combined with GMP in harness/c15.c"]
